@@ -3403,6 +3403,7 @@ fn run_c08(tier: Tier, ch: &mut Choices, rep: &mut RunReport) -> Outcome {
         for w in 0..4u8 {
             let mut sub = base.clone();
             let mut subrep = RunReport::new(first && rep.lines.is_some());
+            crate::core::heartbeat();
             let out = run_single(P::C08, tier, &mut sub, &mut subrep, Some((k, w)));
             crate::core::fnv(&mut rep.hash, &subrep.hash.to_le_bytes());
             rep.steps += subrep.steps;
